@@ -29,6 +29,18 @@ os.environ["CHARTPARSE_VERIF"] = "1"
 
 import logging  # noqa: E402
 
+_amb = int(os.environ.get("VERIF_AMBIENT", "0") or 0)
+if _amb:
+    # the application configured the interpreter in its own way before it ever imported the library
+    import decimal
+    if _amb in (1, 4):
+        logging.basicConfig(level=logging.DEBUG, handlers=[logging.NullHandler()])
+        logging.getLogger("chartparse").setLevel(logging.DEBUG)
+    if _amb in (2, 3, 4):
+        _c = decimal.getcontext()
+        _c.prec, _c.rounding = {2: (5, decimal.ROUND_DOWN), 3: (4, decimal.ROUND_CEILING), 4: (3, decimal.ROUND_UP)}[_amb]
+        decimal.DefaultContext.prec, decimal.DefaultContext.rounding = _c.prec, _c.rounding      # (threads started later inherit it)
+
 import chartparse.chart  # noqa: E402
 import chartparse.instrument  # noqa: E402
 import chartparse.tick  # noqa: E402
@@ -36,6 +48,8 @@ from chartparse.chart import Chart  # noqa: E402
 from chartparse.instrument import Difficulty, Instrument  # noqa: E402
 
 logging.getLogger().handlers[:] = [logging.NullHandler()]
+if _amb in (1, 4):
+    logging.getLogger().setLevel(logging.DEBUG)
 import observe  # noqa: E402
 
 PKG_DIR = os.path.join(os.path.realpath(REPO), "chartparse")
@@ -57,9 +71,15 @@ def cache_state():
     return {name: [f.cache_info().hits, f.cache_info().misses, f.cache_info().currsize] for name, f in cached_functions()}
 
 
+_WANT_OBJECTS: dict = {}
+
+
 def parse_one(name):
     w = WANTS.get(name)
-    want = None if w is None else [(Instrument[i], Difficulty[d]) for i, d in w]
+    # (the selection of a text is ONE list object, handed to every parse of that text: a caller's argument is the caller's)
+    if w is not None and name not in _WANT_OBJECTS:
+        _WANT_OBJECTS[name] = [(Instrument[i], Difficulty[d]) for i, d in w]
+    want = _WANT_OBJECTS.get(name)
     try:
         c = Chart.from_file(io.StringIO(TEXTS[name]), want_tracks=want)
         if KEEP[0]:
